@@ -38,7 +38,7 @@ type c18Hist struct {
 	Goroutines int    `json:"goroutines"`
 	OpsEach    int    `json:"ops_each"`
 	Procs      int    `json:"gomaxprocs"`
-	Mode       string `json:"mode"` // feequote | engine
+	Mode       string `json:"mode"` // feequote | feequote-raw | engine
 }
 
 type c18Op struct {
@@ -153,13 +153,29 @@ func waitOrDeadlock(c *mon.Ctx, wg *sync.WaitGroup, what string) {
 }
 
 type c18Recorder struct {
+	raw   bool
 	clock atomic.Int64
 	mu    sync.Mutex
 	ops   []c18Op
 	torn  []string
 }
 
+// tick stamps a call or return from the one logical clock. In raw mode (see
+// c18Hist.Mode) nothing is stamped or recorded: the monitor's own atomics and
+// mutex would order the goroutines' operations (happens-before edges) and hide
+// from the race detector every race between operations that do not overlap in
+// real time.
+func (r *c18Recorder) tick() int64 {
+	if r.raw {
+		return 0
+	}
+	return r.clock.Add(1)
+}
+
 func (r *c18Recorder) add(ops ...c18Op) {
+	if r.raw {
+		return
+	}
 	r.mu.Lock()
 	r.ops = append(r.ops, ops...)
 	r.mu.Unlock()
@@ -290,7 +306,7 @@ func zoneCheck(ops []c18Op) string {
 func c18FeeQuoteHistory(c *mon.Ctx, h *c18Hist) {
 	prev := runtime.GOMAXPROCS(h.Procs)
 	defer runtime.GOMAXPROCS(prev)
-	rec := &c18Recorder{}
+	rec := &c18Recorder{raw: h.Mode == "feequote-raw"}
 	types := []bt.FeeType{bt.FeeTypeStandard, bt.FeeTypeData}
 	// shared state: a FeeQuotes with two known miners, two miners added later, and two free-standing quotes
 	fqs := bt.NewFeeQuotes("m0")
@@ -336,9 +352,9 @@ func c18FeeQuoteHistory(c *mon.Ctx, h *c18Hist) {
 				switch op {
 				case 0, 1: // FeeQuote.Fee on a free quote
 					i := r.Intn(2)
-					call := rec.clock.Add(1)
+					call := rec.tick()
 					f, err := free[i].Fee(t)
-					ret := rec.clock.Add(1)
+					ret := rec.tick()
 					id, ok := feeID(f)
 					if err != nil {
 						id = valAbsent
@@ -356,22 +372,22 @@ func c18FeeQuoteHistory(c *mon.Ctx, h *c18Hist) {
 						id |= untypedBit
 					}
 					fee := mkFee(t, id)
-					call := rec.clock.Add(1)
+					call := rec.tick()
 					free[i].AddQuote(t, fee)
-					ret := rec.clock.Add(1)
+					ret := rec.tick()
 					rec.add(c18Op{proc: g, kind: "FeeQuote.AddQuote", key: fmt.Sprintf("fee:free%d:%s", i, t), write: true, val: id, call: call, ret: ret})
 				case 4: // Expiry
 					i := r.Intn(2)
-					call := rec.clock.Add(1)
+					call := rec.tick()
 					e := free[i].Expiry()
-					ret := rec.clock.Add(1)
+					ret := rec.tick()
 					rec.add(c18Op{proc: g, kind: "FeeQuote.Expiry", key: fmt.Sprintf("exp:free%d", i), val: e.Unix() - expBase, call: call, ret: ret})
 				case 5: // UpdateExpiry
 					i := r.Intn(2)
 					id := newID()
-					call := rec.clock.Add(1)
+					call := rec.tick()
 					free[i].UpdateExpiry(time.Unix(expBase+id, 0).UTC())
-					ret := rec.clock.Add(1)
+					ret := rec.tick()
 					rec.add(c18Op{proc: g, kind: "FeeQuote.UpdateExpiry", key: fmt.Sprintf("exp:free%d", i), write: true, val: id, call: call, ret: ret})
 				case 6: // Expired (every instant written lies in the past)
 					if !free[r.Intn(2)].Expired() {
@@ -379,9 +395,9 @@ func c18FeeQuoteHistory(c *mon.Ctx, h *c18Hist) {
 					}
 				case 7, 8: // json.Marshal of a free quote: a read of both fee types
 					i := r.Intn(2)
-					call := rec.clock.Add(1)
+					call := rec.tick()
 					b, err := json.Marshal(free[i])
-					ret := rec.clock.Add(1)
+					ret := rec.tick()
 					if err != nil {
 						continue
 					}
@@ -405,18 +421,18 @@ func c18FeeQuoteHistory(c *mon.Ctx, h *c18Hist) {
 					i := r.Intn(2)
 					a, b2 := newID(), newID()
 					doc, _ := json.Marshal(map[bt.FeeType]*bt.Fee{bt.FeeTypeStandard: mkFee(bt.FeeTypeStandard, a), bt.FeeTypeData: mkFee(bt.FeeTypeData, b2)})
-					call := rec.clock.Add(1)
+					call := rec.tick()
 					err := json.Unmarshal(doc, free[i])
-					ret := rec.clock.Add(1)
+					ret := rec.tick()
 					if err == nil {
 						rec.add(c18Op{proc: g, kind: "FeeQuote.UnmarshalJSON", key: fmt.Sprintf("fee:free%d:%s", i, bt.FeeTypeStandard), write: true, val: a, call: call, ret: ret},
 							c18Op{proc: g, kind: "FeeQuote.UnmarshalJSON", key: fmt.Sprintf("fee:free%d:%s", i, bt.FeeTypeData), write: true, val: b2, call: call, ret: ret})
 					}
 				case 10, 11: // FeeQuotes.Fee
 					m := prng.Pick(r, []string{"m0", "m1", "m2", "m3"})
-					call := rec.clock.Add(1)
+					call := rec.tick()
 					f, err := fqs.Fee(m, t)
-					ret := rec.clock.Add(1)
+					ret := rec.tick()
 					id, ok := feeID(f)
 					if err != nil {
 						id = valAbsent
@@ -433,9 +449,9 @@ func c18FeeQuoteHistory(c *mon.Ctx, h *c18Hist) {
 					if r.Bool() {
 						id |= untypedBit
 					}
-					call := rec.clock.Add(1)
+					call := rec.tick()
 					_, err := fqs.UpdateMinerFees(m, t, mkFee(t, id))
-					ret := rec.clock.Add(1)
+					ret := rec.tick()
 					if err == nil {
 						rec.add(c18Op{proc: g, kind: "FeeQuotes.UpdateMinerFees", key: "fee:" + m + ":" + string(t), write: true, val: id, call: call, ret: ret})
 					}
@@ -445,9 +461,9 @@ func c18FeeQuoteHistory(c *mon.Ctx, h *c18Hist) {
 					if err != nil || q == nil {
 						continue
 					}
-					call := rec.clock.Add(1)
+					call := rec.tick()
 					f, err := q.Fee(t)
-					ret := rec.clock.Add(1)
+					ret := rec.tick()
 					id, _ := feeID(f)
 					if err != nil {
 						id = valAbsent
@@ -456,13 +472,13 @@ func c18FeeQuoteHistory(c *mon.Ctx, h *c18Hist) {
 				case 15: // the first goroutines add the two late miners exactly once
 					if g < 2 && k == h.OpsEach/3 {
 						m := []string{"m2", "m3"}[g]
-						call := rec.clock.Add(1)
+						call := rec.tick()
 						if g == 0 {
 							fqs.AddMinerWithDefault(m)
 						} else {
 							fqs.AddMiner(m, bt.NewFeeQuote())
 						}
-						ret := rec.clock.Add(1)
+						ret := rec.tick()
 						for _, tt := range types {
 							rec.add(c18Op{proc: g, kind: "FeeQuotes.AddMiner", key: "fee:" + m + ":" + string(tt), write: true, val: valDefault, call: call, ret: ret})
 						}
@@ -473,6 +489,14 @@ func c18FeeQuoteHistory(c *mon.Ctx, h *c18Hist) {
 	}
 	close(start)
 	waitOrDeadlock(c, &wg, "feequote")
+	if rec.raw { // judged by the race detector (and the torn-value checks) alone
+		c.Eval(int64(h.Goroutines * h.OpsEach))
+		c.CountN("raw:feequote-operations", int64(h.Goroutines*h.OpsEach))
+		for _, t := range rec.torn {
+			c.Violation("C18:torn-value", t)
+		}
+		return
+	}
 	c.Eval(int64(len(rec.ops)))
 	// (c) every value read was written by someone
 	written := map[string]map[int64]bool{}
@@ -674,34 +698,42 @@ func c18EngineHistory(c *mon.Ctx, h *c18Hist) {
 	}
 	c.CountN("engine:jobs", int64(len(jobs)))
 	c.CountN("engine:jobs-accepted-sequentially", int64(okN))
+	// The workers share nothing with the monitor while they run (no atomics, no
+	// mutex: those would order their executions for the race detector); each
+	// keeps its findings in its own slot, read after all have finished.
 	var wg sync.WaitGroup
-	var mu sync.Mutex
 	diffs := map[string]string{}
+	perG := make([]map[string]string, h.Goroutines)
 	start := make(chan struct{})
-	var done atomic.Int64
 	for g := 0; g < h.Goroutines; g++ {
 		wg.Add(1)
+		perG[g] = map[string]string{}
 		go func(g int) {
 			defer wg.Done()
 			r := prng.New(c.Seed, "C18-eng", h.N<<8|uint64(g))
+			mine := perG[g]
 			<-start
 			for k := 0; k < h.OpsEach; k++ {
 				i := r.Intn(len(jobs))
-				got := jobs[i].run(e)
-				done.Add(1)
-				if got != seq[i] {
-					mu.Lock()
-					diffs[fmt.Sprintf("job %d", i)] = fmt.Sprintf("sequential %q, concurrent %q", seq[i], got)
-					mu.Unlock()
+				if got := jobs[i].run(e); got != seq[i] {
+					mine[fmt.Sprintf("job %d", i)] = fmt.Sprintf("sequential %q, concurrent %q", seq[i], got)
 				}
-				yield(r)
+				if k%4 == 3 {
+					runtime.Gosched()
+				}
 			}
 		}(g)
 	}
 	close(start)
 	waitOrDeadlock(c, &wg, "engine")
-	c.Eval(done.Load())
-	c.CountN("engine:concurrent-executions", done.Load())
+	for _, m := range perG {
+		for k, v := range m {
+			diffs[k] = v
+		}
+	}
+	executed := int64(h.Goroutines * h.OpsEach)
+	c.Eval(executed)
+	c.CountN("engine:concurrent-executions", executed)
 	c.Count(fmt.Sprintf("gomaxprocs:%d", h.Procs))
 	for k, v := range diffs {
 		c.Violationf("C18:engine-verdict-differs", "one shared Engine, %d goroutines: %s: %s", h.Goroutines, k, v)
@@ -747,6 +779,18 @@ func init() {
 			}
 			r := c.Rand(i)
 			hist(c, &c18Hist{N: i, Goroutines: prng.Pick(r, []int{3, 4, 8, 16}), OpsEach: 15 + r.Intn(25), Procs: procs[i%3], Mode: "feequote"})
+		}
+		c.Phase("feequote-raw") // the same operation mix without any monitor synchronisation between operations: race detector only
+		N = 60
+		if c.Thorough {
+			N = 1500
+		}
+		for i := uint64(0); i < N; i++ {
+			if !c.Case(i) {
+				continue
+			}
+			r := c.Rand(i)
+			hist(c, &c18Hist{N: i, Goroutines: prng.Pick(r, []int{3, 4, 8, 16}), OpsEach: 15 + r.Intn(25), Procs: procs[i%3], Mode: "feequote-raw"})
 		}
 		c.Phase("engine")
 		N = 12
